@@ -1,5 +1,7 @@
 /- Helper lemmas for Props/C18.lean -/
 import XsdataModel.Code.PycodeWF
+import XsdataModel.Props.C05Float
+import XsdataModel.Proofs.PycodeDec
 
 namespace Xs.Code
 open Py
@@ -14,9 +16,41 @@ theorem pyEq_bool (b : Bool) : pyEq (.bool b) (.bool b) = true := by
   cases b <;> decide
 theorem pyEq_int (i : Int) : pyEq (.int i) (.int i) = true := by
   simp [pyEq, leafEq, numOf, NumV.eq]
-theorem pyEq_float {n : NumV} (r r' : Str) (h : notNan (some n) = true) :
-    pyEq (.float n r) (.float n r') = true := by
-  simp [pyEq, leafEq, numOf, NumV.eq_self h]
+theorem numOfF64_notNan {x : Xs.Conv.F64} (h : x ≠ .nan) : notNan (some (numOfF64 x)) = true := by
+  cases x with
+  | nan => exact absurd rfl h
+  | inf neg => cases neg <;> simp [numOfF64, notNan]
+  | fin neg m q =>
+    simp only [numOfF64]
+    split
+    · simp [notNan]
+    · split <;> simp [notNan]
+
+theorem pyEq_float {x : Xs.Conv.F64} (r r' : Str) (h : x ≠ .nan) :
+    pyEq (.float x r) (.float x r') = true := by
+  simp [pyEq, leafEq, numOf, NumV.eq_self (numOfF64_notNan h)]
+
+theorem canonical_of_B {x : Xs.Conv.F64} (h : f64Canonical x = true) : x.Canonical := by
+  cases x with
+  | nan => trivial
+  | inf _ => trivial
+  | fin neg m q =>
+    simp only [f64Canonical, Bool.or_eq_true, Bool.and_eq_true, beq_iff_eq, decide_eq_true_eq] at h
+    unfold Xs.Conv.F64.Canonical
+    rcases h with (h | h) | h
+    · exact Or.inl h
+    · exact Or.inr (Or.inl ⟨h.1.1.1, h.1.1.2, h.1.2, h.2⟩)
+    · exact Or.inr (Or.inr ⟨h.1.1, h.1.2, h.2⟩)
+
+/-- the repr of a float of the domain is read back as that float: C05's
+`float_repr_rt`, instantiated -/
+theorem readFloat_repr {x : Xs.Conv.F64} {r : Str}
+    (h : (x != .nan && f64Canonical x && r == x.repr) = true) : x ≠ .nan ∧ readFloat r = some x := by
+  simp only [Bool.and_eq_true, bne_iff_ne, ne_eq, beq_iff_eq] at h
+  refine ⟨h.1.1, ?_⟩
+  rw [h.2]
+  exact Props.C05.float_repr_rt Py.Env.ascii x (canonical_of_B h.1.2)
+
 theorem pyEq_str (s r r' : Str) : pyEq (.str s r) (.str s r') = true := by
   simp [pyEq, leafEq, numOf]
 theorem pyEq_bytes (c c' : ClsRef) (bs : List Nat) (r r' : Str) : pyEq (.bytes c bs r) (.bytes c' bs r') = true := by
@@ -25,6 +59,13 @@ theorem pyEq_qname (t : Str) : pyEq (.qname t) (.qname t) = true := by
   simp [pyEq, leafEq, numOf]
 theorem pyEq_enum (c : ClsRef) (m : Str) : pyEq (.enum c m) (.enum c m) = true := by
   simp [pyEq, leafEq, numOf]
+theorem pyEq_decimal (d : Xs.Conv.Dec) (r r' : Str) (h : notNan (some (numOfDec d)) = true) :
+    pyEq (.decimal d r) (.decimal d r') = true := by
+  simp [pyEq, leafEq, numOf, NumV.eq_self h]
+
+theorem decimalName_builtin : Tables.builtinNames.contains Tables.decimalName = false ∧
+    (decimalT.module == builtinsMod) = false := by decide
+
 theorem pyEq_opaque (c : ClsRef) (cal : List Str) (ar : Str) (n : Option NumV) (h : notNan n = true) :
     pyEq (.opaque c cal ar n) (.opaque c cal ar n) = true := by
   cases n with
@@ -293,18 +334,24 @@ theorem rt (W : World) (env : Env) : (v : Val) → RT W env v
   | .bytes c bs r => fun _ hok _ => by
       have hd : decodeBytesLit r = some bs := by simpa [valOK] using hok
       exact ⟨.bytes bytesT bs r, by simp [render, eval, hd], pyEq_bytes _ _ bs r r, by simp [hashable]⟩
-  | .float n r => fun _ hok henv => by
-      have hn : notNan (some n) = true := by simpa [valOK] using hok
-      refine ⟨.float n r, ?_, pyEq_float r r hn, by simp [hashable]⟩
-      cases hf : n.isFin
+  | .float x r => fun _ hok henv => by
+      obtain ⟨hn, hrt⟩ := readFloat_repr (by simpa [valOK] using hok)
+      refine ⟨.float x r, ?_, pyEq_float r r hn, by simp [hashable]⟩
+      cases hf : f64Finite x
       · have hres : resolve W env [floatCallee] = .ok floatT :=
           henv ([floatCallee], floatT) (by simp [render, hf, PyExpr.refs])
-        simp [render, hf, eval, hres]
-      · simp [render, hf, eval]
+        simp [render, hf, eval, hres, hrt]
+      · simp [render, hf, eval, hrt]
   | .qname t => fun _ _ henv => by
       have hres : resolve W env [qnameCallee] = .ok qnameT :=
         henv ([qnameCallee], qnameT) (by simp [render, PyExpr.refs])
       exact ⟨.qname t, by simp [render, eval, hres, decodeDq_jsonBody t], pyEq_qname t, by simp [hashable]⟩
+  | .decimal d r => fun _ hok henv => by
+      have hp : notNan (some (numOfDec d)) = true ∧ r = decRepr d := by simpa [valOK] using hok
+      have hres : resolve W env [Tables.decimalName] = .ok decimalT :=
+        henv ([Tables.decimalName], decimalT) (by simp [render, PyExpr.refs])
+      have hrd : readDecimal r = some d := by rw [hp.2]; exact readDecimal_decRepr d
+      exact ⟨.decimal d r, by simp [render, eval, hres, hrd], pyEq_decimal d r r hp.1, by simp [hashable]⟩
   | .opaque c callee args n => fun _ hok henv => by
       have hp : notNan n = true ∧ callee = c.path := by simpa [valOK] using hok
       have hres : resolve W env callee = .ok c :=
@@ -560,6 +607,7 @@ theorem refs_sub_types : (e : PyExpr) → ∀ pc ∈ e.refs, pc.2 ∈ e.types
   | .floatCall _ _, pc, h => by simp [PyExpr.refs] at h; simp [PyExpr.types, h]
   | .qnameCall _, pc, h => by simp [PyExpr.refs] at h; simp [PyExpr.types, h]
   | .opaqueCall _ _ _ _, pc, h => by simp [PyExpr.refs] at h; simp [PyExpr.types, h]
+  | .decimalCall _ _, pc, h => by simp [PyExpr.refs] at h; simp [PyExpr.types, h]
   | .enumRef _ _, pc, h => by simp [PyExpr.refs] at h; simp [PyExpr.types, h]
   | .call c kws, pc, h => by
       simp only [PyExpr.refs, List.mem_cons] at h
@@ -620,16 +668,16 @@ theorem wfL_mem {W : World} : ∀ {xs : List Val} {a : Val}, wfL W xs = true →
       | head => exact hw'.1
       | tail _ h' => exact wfL_mem hw'.2 h'
 
-theorem valOKL_mem {W : World} : ∀ {xs : List Val} {a : Val}, valOKL W xs = true → a ∈ xs → valOK W a = true
+theorem domOKL_mem {W : World} : ∀ {xs : List Val} {a : Val}, domOKL W xs = true → a ∈ xs → domOK W a = true
   | [], _, _, h => by cases h
   | x :: xs, a, hw, h => by
-      have hw' : valOK W x = true ∧ valOKL W xs = true := by simpa [valOKL] using hw
+      have hw' : domOK W x = true ∧ domOKL W xs = true := by simpa [domOKL] using hw
       cases h with
       | head => exact hw'.1
-      | tail _ h' => exact valOKL_mem hw'.2 h'
+      | tail _ h' => exact domOKL_mem hw'.2 h'
 
 def RefsGood (W : World) (v : Val) : Prop :=
-  wf W v = true → valOK W v = true → ∀ pc ∈ ((render W v).refs), RefGood W pc
+  wf W v = true → domOK W v = true → ∀ pc ∈ ((render W v).refs), RefGood W pc
 
 mutual
 theorem refs_good (W : World) : (v : Val) → RefsGood W v
@@ -638,8 +686,8 @@ theorem refs_good (W : World) : (v : Val) → RefsGood W v
   | .int _ => fun _ _ pc h => by simp [render, PyExpr.refs] at h
   | .str _ _ => fun _ _ pc h => by simp [render, PyExpr.refs] at h
   | .bytes _ _ _ => fun _ _ pc h => by simp [render, PyExpr.refs] at h
-  | .float n r => fun _ _ pc h => by
-      cases hf : n.isFin
+  | .float x r => fun _ _ pc h => by
+      cases hf : f64Finite x
       · simp [render, hf, PyExpr.refs] at h
         subst h
         exact ⟨by simp [floatCallee_eq]; rfl, reachable_single W _ _, Or.inr ⟨cs!"float", rfl, float_builtin⟩⟩
@@ -648,10 +696,14 @@ theorem refs_good (W : World) : (v : Val) → RefsGood W v
       simp [render, PyExpr.refs] at h
       subst h
       exact ⟨by simp [qnameCallee_eq]; rfl, reachable_single W _ _, Or.inl (by simpa using qname_not_builtin)⟩
+  | .decimal d r => fun _ _ pc h => by
+      simp [render, PyExpr.refs] at h
+      subst h
+      exact ⟨rfl, reachable_single W _ _, Or.inl (by simpa using decimalName_builtin.2)⟩
   | .opaque c callee args n => fun hwf hok pc h => by
       simp [render, PyExpr.refs] at h
       subst h
-      have hp : notNan n = true ∧ callee = c.path := by simpa [valOK] using hok
+      have hp : notNan n = true ∧ callee = c.path := by simpa [domOK] using hok
       have hw : reachable W c = true ∧ c.module ≠ builtinsMod := by simpa [wf] using hwf
       exact ⟨hp.2, hw.1, Or.inl hw.2⟩
   | .enum c m => fun hwf hok pc h => by
@@ -662,12 +714,12 @@ theorem refs_good (W : World) : (v : Val) → RefsGood W v
       exact ⟨rfl, hw.1.2, Or.inl hw.2⟩
   | .list xs => fun hwf hok pc h => by
       simp only [render, PyExpr.refs, arrRefs] at h
-      exact refs_goodL W xs (by simpa [wf] using hwf) (by simpa [valOK] using hok) pc (by simpa using h)
+      exact refs_goodL W xs (by simpa [wf] using hwf) (by simpa [domOK] using hok) pc (by simpa using h)
   | .tuple xs => fun hwf hok pc h => by
       simp only [render, PyExpr.refs, arrRefs] at h
-      exact refs_goodL W xs (by simpa [wf] using hwf) (by simpa [valOK] using hok) pc (by simpa using h)
+      exact refs_goodL W xs (by simpa [wf] using hwf) (by simpa [domOK] using hok) pc (by simpa using h)
   | .set frozen xs => fun hwf hok pc h => by
-      have hok' : hashableL xs = true ∧ valOKL W xs = true := by simpa [valOK] using hok
+      have hok' : hashableL xs = true ∧ domOKL W xs = true := by simpa [domOK] using hok
       simp only [render, PyExpr.refs, List.mem_append] at h
       rcases h with h | h
       · cases frozen
@@ -687,40 +739,40 @@ theorem refs_good (W : World) : (v : Val) → RefsGood W v
       · exact refs_goodL W xs (by simpa [wf] using hwf) hok'.2 pc h
   | .dict kvs => fun hwf hok pc h => by
       simp only [render, PyExpr.refs] at h
-      exact refs_goodKV W kvs (by simpa [wf] using hwf) (by simpa [valOK] using hok) pc h
+      exact refs_goodKV W kvs (by simpa [wf] using hwf) (by simpa [domOK] using hok) pc h
   | .model c attrs => fun hwf hok pc h => by
       simp only [wf, Bool.and_eq_true] at hwf
       obtain ⟨⟨⟨_, hreach⟩, hmod⟩, hwfL⟩ := hwf
-      simp only [valOK, Bool.and_eq_true] at hok
+      simp only [domOK] at hok
       simp only [render, PyExpr.refs, List.mem_cons] at h
       rcases h with h | h
       · subst h
         exact ⟨rfl, hreach, Or.inl (by simpa using hmod)⟩
       · obtain ⟨a, ha, hp⟩ := mem_refsKw_select W _ attrs pc h
-        exact refs_goodA W attrs a ha (wfL_mem hwfL ha) (valOKL_mem hok.2 ha) pc hp
+        exact refs_goodA W attrs a ha (wfL_mem hwfL ha) (domOKL_mem hok ha) pc hp
 theorem refs_goodA (W : World) : (xs : List Val) → ∀ a ∈ xs, RefsGood W a
   | [], _, h => by cases h
   | x :: xs, a, h => by
       cases h with
       | head => exact refs_good W x
       | tail _ h' => exact refs_goodA W xs a h'
-theorem refs_goodL (W : World) : (xs : List Val) → wfL W xs = true → valOKL W xs = true →
+theorem refs_goodL (W : World) : (xs : List Val) → wfL W xs = true → domOKL W xs = true →
     ∀ pc ∈ refsL (renderL W xs), RefGood W pc
   | [], _, _, pc, h => by simp [renderL, refsL] at h
   | x :: xs, hwf, hok, pc, h => by
       have hwf' : wf W x = true ∧ wfL W xs = true := by simpa [wfL] using hwf
-      have hok' : valOK W x = true ∧ valOKL W xs = true := by simpa [valOKL] using hok
+      have hok' : domOK W x = true ∧ domOKL W xs = true := by simpa [domOKL] using hok
       simp only [renderL, refsL, List.mem_append] at h
       rcases h with h | h
       · exact refs_good W x hwf'.1 hok'.1 pc h
       · exact refs_goodL W xs hwf'.2 hok'.2 pc h
-theorem refs_goodKV (W : World) : (kvs : List (Val × Val)) → wfKV W kvs = true → valOKKV W kvs = true →
+theorem refs_goodKV (W : World) : (kvs : List (Val × Val)) → wfKV W kvs = true → domOKKV W kvs = true →
     ∀ pc ∈ refsKV (renderKV W kvs), RefGood W pc
   | [], _, _, pc, h => by simp [renderKV, refsKV] at h
   | (k, v) :: r, hwf, hok, pc, h => by
       have hwf' : (wf W k = true ∧ wf W v = true) ∧ wfKV W r = true := by simpa [wfKV] using hwf
-      have hok' : ((hashable k = true ∧ valOK W k = true) ∧ valOK W v = true) ∧ valOKKV W r = true := by
-        simpa [valOKKV] using hok
+      have hok' : ((hashable k = true ∧ domOK W k = true) ∧ domOK W v = true) ∧ domOKKV W r = true := by
+        simpa [domOKKV] using hok
       simp only [renderKV, refsKV, List.mem_append] at h
       rcases h with (h | h) | h
       · exact refs_good W k hwf'.1.1 hok'.1.1.2 pc h
@@ -741,7 +793,7 @@ theorem riskKw_select (W : World) : ∀ (fs : List FieldSpec) (as : List Val),
       simp only [selectKw, renderL]
       split <;> simp [riskKw, ha, hr]
 
-def NoRisk (W : World) (v : Val) : Prop := valOK W v = true → (render W v).syntaxRisk = false
+def NoRisk (W : World) (v : Val) : Prop := domOK W v = true → (render W v).syntaxRisk = false
 
 mutual
 theorem no_risk (W : World) : (v : Val) → NoRisk W v
@@ -749,96 +801,109 @@ theorem no_risk (W : World) : (v : Val) → NoRisk W v
   | .bool _ => fun _ => by simp [render, PyExpr.syntaxRisk]
   | .int _ => fun _ => by simp [render, PyExpr.syntaxRisk]
   | .str s r => fun hok => by
-      have hd : decodeStrLit r = some s := by simpa [valOK] using hok
+      have hd : decodeStrLit r = some s := by simpa [domOK] using hok
       simp [render, PyExpr.syntaxRisk, hd]
   | .bytes _ bs r => fun hok => by
-      have hd : decodeBytesLit r = some bs := by simpa [valOK] using hok
+      have hd : decodeBytesLit r = some bs := by simpa [domOK] using hok
       simp [render, PyExpr.syntaxRisk, hd]
-  | .float n _ => fun _ => by cases hf : n.isFin <;> simp [render, hf, PyExpr.syntaxRisk]
+  | .float x r => fun hok => by
+      obtain ⟨_, hrt⟩ := readFloat_repr (by simpa [domOK] using hok)
+      cases hf : f64Finite x <;> simp [render, hf, PyExpr.syntaxRisk, hrt]
   | .opaque _ _ _ _ => fun _ => by simp [render, PyExpr.syntaxRisk]
+  | .decimal d r => fun hok => by
+      have hp : notNan (some (numOfDec d)) = true ∧ r = decRepr d := by simpa [domOK] using hok
+      simp [render, PyExpr.syntaxRisk, hp.2, readDecimal_decRepr d]
   | .enum _ m => fun hok => by
-      have hn : enumNameOK m = true := by simpa [valOK] using hok
+      have hn : enumNameOK m = true := by simpa [domOK] using hok
       simp [render, PyExpr.syntaxRisk, hn]
   | .qname t => fun _ => by
       simp [render, PyExpr.syntaxRisk, decodeDq_jsonBody t]
   | .list xs => fun hok => by
       simp only [render, PyExpr.syntaxRisk]
-      exact no_riskL W xs (by simpa [valOK] using hok)
+      exact no_riskL W xs (by simpa [domOK] using hok)
   | .tuple xs => fun hok => by
       simp only [render, PyExpr.syntaxRisk]
-      exact no_riskL W xs (by simpa [valOK] using hok)
+      exact no_riskL W xs (by simpa [domOK] using hok)
   | .set frozen xs => fun hok => by
-      have hok' : hashableL xs = true ∧ valOKL W xs = true := by simpa [valOK] using hok
+      have hok' : hashableL xs = true ∧ domOKL W xs = true := by simpa [domOK] using hok
       simp only [render, PyExpr.syntaxRisk]
       exact no_riskL W xs hok'.2
   | .dict kvs => fun hok => by
       simp only [render, PyExpr.syntaxRisk]
-      exact no_riskKV W kvs (by simpa [valOK] using hok)
+      exact no_riskKV W kvs (by simpa [domOK] using hok)
   | .model c attrs => fun hok => by
-      simp only [valOK, Bool.and_eq_true] at hok
+      simp only [domOK] at hok
       simp only [render, PyExpr.syntaxRisk]
-      exact riskKw_select W _ attrs (fun a ha => no_riskA W attrs a ha (valOKL_mem hok.2 ha))
+      exact riskKw_select W _ attrs (fun a ha => no_riskA W attrs a ha (domOKL_mem hok ha))
 theorem no_riskA (W : World) : (xs : List Val) → ∀ a ∈ xs, NoRisk W a
   | [], _, h => by cases h
   | x :: xs, a, h => by
       cases h with
       | head => exact no_risk W x
       | tail _ h' => exact no_riskA W xs a h'
-theorem no_riskL (W : World) : (xs : List Val) → valOKL W xs = true → riskL (renderL W xs) = false
+theorem no_riskL (W : World) : (xs : List Val) → domOKL W xs = true → riskL (renderL W xs) = false
   | [], _ => by simp [renderL, riskL]
   | x :: xs, hok => by
-      have hok' : valOK W x = true ∧ valOKL W xs = true := by simpa [valOKL] using hok
+      have hok' : domOK W x = true ∧ domOKL W xs = true := by simpa [domOKL] using hok
       simp [renderL, riskL, no_risk W x hok'.1, no_riskL W xs hok'.2]
-theorem no_riskKV (W : World) : (kvs : List (Val × Val)) → valOKKV W kvs = true → riskKV (renderKV W kvs) = false
+theorem no_riskKV (W : World) : (kvs : List (Val × Val)) → domOKKV W kvs = true → riskKV (renderKV W kvs) = false
   | [], _ => by simp [renderKV, riskKV]
   | (k, v) :: r, hok => by
-      have hok' : ((hashable k = true ∧ valOK W k = true) ∧ valOK W v = true) ∧ valOKKV W r = true := by
-        simpa [valOKKV] using hok
+      have hok' : ((hashable k = true ∧ domOK W k = true) ∧ domOK W v = true) ∧ domOKKV W r = true := by
+        simpa [domOKKV] using hok
       simp [renderKV, riskKV, no_risk W k hok'.1.1.2, no_risk W v hok'.1.2, no_riskKV W r hok'.2]
 end
 
 
-/-! ### `valOK` is the property's domain -/
+/-! ### `valOK` = the property's domain, with `init=False` attributes at their default -/
 
 mutual
-theorem valOK_of_dom (W : World) : (v : Val) → domOK W v = true → valOK W v = true
-  | .none, _ => by simp [valOK]
-  | .bool _, _ => by simp [valOK]
-  | .int _, _ => by simp [valOK]
-  | .str _ _, hd => by simpa [valOK, domOK] using hd
-  | .bytes _ _ _, hd => by simpa [valOK, domOK] using hd
-  | .qname _, _ => by simp [valOK]
-  | .enum _ _, hd => by simpa [valOK, domOK] using hd
-  | .float _ _, hd => by simpa [valOK, domOK] using hd
-  | .opaque _ _ _ _, hd => by simpa [valOK, domOK] using hd
-  | .set _ xs, hd => by
+theorem valOK_of_dom (W : World) : (v : Val) → domOK W v = true → initFalseAtDefault W v = true → valOK W v = true
+  | .none, _, _ => by simp [valOK]
+  | .bool _, _, _ => by simp [valOK]
+  | .int _, _, _ => by simp [valOK]
+  | .qname _, _, _ => by simp [valOK]
+  | .str _ _, hd, _ => by simpa [valOK, domOK] using hd
+  | .bytes _ _ _, hd, _ => by simpa [valOK, domOK] using hd
+  | .enum _ _, hd, _ => by simpa [valOK, domOK] using hd
+  | .float _ _, hd, _ => by simpa [valOK, domOK] using hd
+  | .opaque _ _ _ _, hd, _ => by simpa [valOK, domOK] using hd
+  | .decimal _ _, hd, _ => by simpa [valOK, domOK] using hd
+  | .set _ xs, hd, hi => by
       simp only [domOK, Bool.and_eq_true] at hd
       simp only [valOK, Bool.and_eq_true]
-      exact ⟨hd.1, valOKL_of_dom W xs hd.2⟩
-  | .tuple xs, hd => by
+      exact ⟨hd.1, valOKL_of_dom W xs hd.2 (by simpa [initFalseAtDefault] using hi)⟩
+  | .tuple xs, hd, hi => by
       simp only [valOK]
-      exact valOKL_of_dom W xs (by simpa [domOK] using hd)
-  | .list xs, hd => by
+      exact valOKL_of_dom W xs (by simpa [domOK] using hd) (by simpa [initFalseAtDefault] using hi)
+  | .list xs, hd, hi => by
       simp only [valOK]
-      exact valOKL_of_dom W xs (by simpa [domOK] using hd)
-  | .dict kvs, hd => by
+      exact valOKL_of_dom W xs (by simpa [domOK] using hd) (by simpa [initFalseAtDefault] using hi)
+  | .dict kvs, hd, hi => by
       simp only [valOK]
-      exact valOKKV_of_dom W kvs (by simpa [domOK] using hd)
-  | .model c attrs, hd => by
-      simp only [domOK, Bool.and_eq_true] at hd
+      exact valOKKV_of_dom W kvs (by simpa [domOK] using hd) (by simpa [initFalseAtDefault] using hi)
+  | .model c attrs, hd, hi => by
+      simp only [initFalseAtDefault, Bool.and_eq_true] at hi
       simp only [valOK, Bool.and_eq_true]
-      exact ⟨hd.1, valOKL_of_dom W attrs hd.2⟩
-theorem valOKL_of_dom (W : World) : (xs : List Val) → domOKL W xs = true → valOKL W xs = true
-  | [], _ => by simp [valOKL]
-  | x :: xs, hd => by
+      exact ⟨hi.1, valOKL_of_dom W attrs (by simpa [domOK] using hd) hi.2⟩
+theorem valOKL_of_dom (W : World) : (xs : List Val) → domOKL W xs = true → initFalseAtDefaultL W xs = true →
+    valOKL W xs = true
+  | [], _, _ => by simp [valOKL]
+  | x :: xs, hd, hi => by
       have hd' : domOK W x = true ∧ domOKL W xs = true := by simpa [domOKL] using hd
-      simp [valOKL, valOK_of_dom W x hd'.1, valOKL_of_dom W xs hd'.2]
-theorem valOKKV_of_dom (W : World) : (kvs : List (Val × Val)) → domOKKV W kvs = true → valOKKV W kvs = true
-  | [], _ => by simp [valOKKV]
-  | (k, v) :: r, hd => by
+      have hi' : initFalseAtDefault W x = true ∧ initFalseAtDefaultL W xs = true := by
+        simpa [initFalseAtDefaultL] using hi
+      simp [valOKL, valOK_of_dom W x hd'.1 hi'.1, valOKL_of_dom W xs hd'.2 hi'.2]
+theorem valOKKV_of_dom (W : World) : (kvs : List (Val × Val)) → domOKKV W kvs = true →
+    initFalseAtDefaultKV W kvs = true → valOKKV W kvs = true
+  | [], _, _ => by simp [valOKKV]
+  | (k, v) :: r, hd, hi => by
       have hd' : ((hashable k = true ∧ domOK W k = true) ∧ domOK W v = true) ∧ domOKKV W r = true := by
         simpa [domOKKV] using hd
-      simp [valOKKV, hd'.1.1.1, valOK_of_dom W k hd'.1.1.2, valOK_of_dom W v hd'.1.2, valOKKV_of_dom W r hd'.2]
+      have hi' : (initFalseAtDefault W k = true ∧ initFalseAtDefault W v = true) ∧ initFalseAtDefaultKV W r = true := by
+        simpa [initFalseAtDefaultKV] using hi
+      simp [valOKKV, hd'.1.1.1, valOK_of_dom W k hd'.1.1.2 hi'.1.1, valOK_of_dom W v hd'.1.2 hi'.1.2,
+        valOKKV_of_dom W r hd'.2 hi'.2]
 end
 
 /-! ### QName text with lone surrogates: what `literal_value` writes is read back -/
@@ -926,7 +991,7 @@ theorem qnameLitBody_scalar : ∀ (t : Str), qnameLitBody (t.map Char.toNat) = j
 
 /-! ### when `render` does not refuse, no import shadows a name the source uses -/
 
-theorem importsOK_of_renders (W : World) (v : Val) (hwf : wf W v = true) (hok : valOK W v = true)
+theorem importsOK_of_renders (W : World) (v : Val) (hwf : wf W v = true) (hok : domOK W v = true)
     (hr : renders W v = true) : importsOK W v = true := by
   simp only [importsOK, importsOKe, List.all_eq_true]
   intro pc hpc t ht
